@@ -107,15 +107,17 @@ PROPS['C12']['trusted'] = sorted(set(PAIR_TRUST + ROUTER_TRUST))
 PROPS['C12']['assumptions'] = [T_CHAIN]
 
 PROPS['C07'] = dict(
-    units=[('u_pair.rs', 'B', None), ('u_router.rs', 'B', ['router', 'querier'])], min_tagged=20, trusted=sorted(set(PAIR_TRUST + ROUTER_TRUST)),
+    units=[('u_pair.rs', 'B', None), ('u_router.rs', 'B', ['router', 'querier']), ('u_factory.rs', 'B', ['factory', 'querier'])], min_tagged=20,
+    trusted=sorted(set(PAIR_TRUST + ROUTER_TRUST)),
     assumptions=[T_CHAIN, 'ledger effect of each emitted message (bank send moves coins from the emitting contract only; cw20 transfer/transfer_from/mint/burn/send move only the named owner/recipient balances and the supply) is the documented behaviour of the bank module and cw20-base 1.0.0, not verified here'],
-    explanation='Frame contracts: every state-changing pair / router handler carries a postcondition that pins its ENTIRE message list (swap: at most one transfer of the ask asset from the pair to the receiver; withdraw: two refunds to the hook sender + burn of exactly a; provide: TransferFrom(owner = caller, recipient = pair, declared amount) per cw20 asset + mint(s) on the LP token of exactly the computed share; router: self-calls per hop, one swap message spending only the router\'s own balance, assertion message) and leaves storage untouched. No other message can be emitted, so no third-party balance is named anywhere.',
+    explanation='Frame contracts: every state-changing pair / router handler carries a postcondition that pins its ENTIRE message list, funds included (factory: no message from configuration updates, one Migrate message, one Instantiate sub-message without funds, one fund-less UpdateNativeTokenDecimals message per affected pair; swap: at most one transfer of the ask asset from the pair to the receiver; withdraw: two refunds to the hook sender + burn of exactly a; provide: TransferFrom(owner = caller, recipient = pair, declared amount) per cw20 asset + mint(s) on the LP token of exactly the computed share; router: self-calls per hop, one swap message spending only the router\'s own balance, assertion message) and leaves storage untouched. No other message can be emitted, so no third-party balance is named anywhere.',
 )
 
 T_FSTORE = 'factory storage: cw-storage-plus Item/Map modelled as fields / ghost maps of a storage record; may_load never fails on typed storage; Map::range(storage, None | ExclusiveRaw(lo), None, Ascending) yields every stored record whose key is above lo exactly once, in ascending byte order of the keys, and stored values deserialize (MapPairs::range_all / range_from, axiom_sorted_keys); read_all_pairs and read_pairs are VERIFIED on top of that'
 T_BYTES = 'byte-level std facts: String::as_bytes is an injective function of the text (UTF-8), <[u8] as Ord>::cmp is lexicographic, Ordering::then, bool::cmp, u64::to_be_bytes is injective with 8 bytes; slice::sort_by on two elements / [T;2]::to_vec / Vec::extend_from_slice behave like the verified helpers'
 T_FQ = 'factory-side queries are projections of the chain state: native_decimals_of (factory allow-list query), cw20 token_info, pair_self_report (the pair\'s own Pair{} answer), reply_contract_addr (address parsed from the instantiate reply); Decimal256 -> text -> Decimal256 and the literal "0.003" are text (C18 n/a) and assumed'
 FACTORY_TRUST = [T_VERUS, T_CW, T_API, T_FSTORE, T_BYTES, T_FQ, T_SERDE, T_DERIVE2, T_R4, T_R2]
+PROPS['C07']['trusted'] = sorted(set(PROPS['C07']['trusted'] + FACTORY_TRUST))
 
 PROPS['C14'] = dict(
     units=[('u_factory.rs', 'B', ['factory', 'querier']), ('u_pair.rs', 'B', None), ('u_router.rs', 'B', ['router', 'querier'])], min_tagged=25,
